@@ -68,9 +68,21 @@ def gen_case(rng, big=False, want_compound=None, risky=False):
         n = rng.range(1, 5) if sh == 'fork' else rng.range(0, 6)
         if rng.chance(1, 12) and sh != 'fork':
             n = 0
-        tps.append({'kind': 'tp', 'id': i, 'shape': sh, 'n': n, 'delay': rng.choice([0, 0, 5, 20, 60, 150]), 'cb': True})
+        tps.append({'kind': 'tp', 'id': i, 'shape': sh, 'n': n, 'delay': rng.choice([0, 0, 5, 20, 60, 150]), 'cb': True,
+                    'cbdelay': rng.choice([0, 0, 200, 500, 1000, 3000])})
     units = []
     free = list(range(ntp))
+    # "late round": a tiny taskpool Y and a long one B with a slow completion callback, both added by the master inside an
+    # epoch; the master waits for Y (this also lets the communication engine release B's registration action), then
+    # enters parsec_taskpool_wait(B) once B's completion callback has begun on a worker
+    late = None
+    if rng.chance(2, 5):
+        y, b = ntp, ntp + 1
+        tps.append({'kind': 'tp', 'id': y, 'shape': 'chain', 'n': 1, 'delay': 0, 'cb': True, 'cbdelay': 0, 'adder': ('master',)})
+        tps.append({'kind': 'tp', 'id': b, 'shape': rng.choice(['indep', 'indep', 'fork', 'chain']), 'n': rng.range(4, 8),
+                    'delay': rng.choice([3000, 6000, 8000]), 'cb': True, 'cbdelay': rng.choice([2000, 3000, 4000]), 'adder': ('master',)})
+        late = (y, b, rng.choice([300, 1000, 2000, 3000]))
+        ntp += 2
     # compounds over disjoint subsets
     ncomp = 0
     if want_compound is None:
@@ -82,7 +94,7 @@ def gen_case(rng, big=False, want_compound=None, risky=False):
         mem = []
         for _ in range(k):
             mem.append(free.pop(rng.below(len(free))))
-        comps.append({'kind': 'comp', 'id': nid, 'members': mem, 'cb': rng.chance(3, 4)})
+        comps.append({'kind': 'comp', 'id': nid, 'members': mem, 'cb': rng.chance(3, 4), 'cbdelay': rng.choice([0, 300, 1000, 3000])})
         nid += 1
         ncomp += 1
     member_of = {}
@@ -114,6 +126,7 @@ def gen_case(rng, big=False, want_compound=None, risky=False):
     madds = [u['id'] for u in order if u['adder'] == ('master',)]
     prog = []
     nep = rng.range(1, 4)
+    late_epoch = rng.below(nep) if late else -1
     slots = [[] for _ in range(2 * nep)]   # slot 2e: before start of epoch e, 2e+1: between start and wait
     for a in madds:
         slots[rng.below(len(slots))].append(a)
@@ -139,8 +152,24 @@ def gen_case(rng, big=False, want_compound=None, risky=False):
             prog.append(('add', a)); added.append(a)
             if rng.chance(1, 4):
                 prog.append('test')
-        if added and rng.chance(1, 2):
-            prog.append(('tpwait', rng.choice(added)))
+        byid = {u['id']: u for u in tps + comps}
+        if e == late_epoch:
+            y, b, slp = late
+            prog += [('add', y), ('add', b), ('sleep', slp), ('tpwait', y), ('tpwaitlate', b, 60000)]
+            added += [y, b]
+        for _round in range(rng.range(0, 2)):
+            if not added:
+                break
+            x = rng.choice(added)
+            k = rng.below(4)
+            if k == 0 and byid[x].get('cb'):
+                # arrive while the completion callback is running on a worker
+                prog.append(('tpwaitlate', x, 30000))
+            elif k == 1:
+                prog.append(('sleep', rng.choice([50, 200, 600, 1500, 4000])))
+                prog.append(('tpwait', x))
+            else:
+                prog.append(('tpwait', x))
         later = [a for a in madds if a not in added]
         if later and rng.chance(1, 6):
             prog.append(('tpwait', rng.choice(later)))       # not registered yet: refused
@@ -175,6 +204,8 @@ def render(case):
     for u in units:
         if u.get('cb'):
             L.append('cb %d' % u['id'])
+            if u.get('cbdelay'):
+                L.append('cbdelay %d %d' % (u['id'], u['cbdelay']))
     for u in units:
         ad = u.get('adder')
         if not ad:
@@ -184,7 +215,7 @@ def render(case):
         elif ad[0] == 'cb':
             L.append('cbadd %d %d' % (ad[1], u['id']))
     for op in case['program']:
-        L.append(op if isinstance(op, str) else '%s %d' % op)
+        L.append(op if isinstance(op, str) else ' '.join(map(str, op)))
     L.append('endcase')
     return L
 
@@ -233,10 +264,10 @@ def drop_unit(case, uid):
     out.sort(key=lambda x: x['id'])
     prog = []
     for op in case['program']:
-        if isinstance(op, tuple) and op[0] in ('add', 'tpwait', 'compose1'):
+        if isinstance(op, tuple) and op[0] in ('add', 'tpwait', 'tpwaitlate', 'compose1'):
             if op[1] in gone:
                 continue
-            prog.append((op[0], ren[op[1]]))
+            prog.append((op[0], ren[op[1]]) + tuple(op[2:]))
         else:
             prog.append(op)
     return {'units': out, 'program': prog}
@@ -463,7 +494,7 @@ def oracle_C06(case, ev, info):
                     for tp in members_closure(case, uid):
                         if not all_done_before(info, tp, i):
                             out.append(('wait-returned-early', 'parsec_context_wait returned (event %d) before every task of taskpool %d (added as %d) completed' % (i, tp, uid)))
-                    if units[uid].get('cb') and units[uid]['kind'] == 'tp' and not any(p < i for p in inf['cbe']):
+                    if units[uid].get('cb') and not any(p < i for p in inf['cbe']):
                         out.append(('wait-returned-early', 'parsec_context_wait returned (event %d) before the completion callback of %d had run to its end' % (i, uid)))
             # ... and nothing runs after the return until the next start
             for j in range(i + 1, len(ev)):
@@ -479,8 +510,8 @@ def oracle_C06(case, ev, info):
                     key = KEY_TPWAIT_COMPOUND if units[uid]['kind'] == 'comp' else 'taskpool_wait-returned-early'
                     out.append((key, 'parsec_taskpool_wait(%d) returned (event %d) before every task of taskpool %d completed' % (uid, i, tp)))
                     break
-            if units[uid]['kind'] == 'tp' and units[uid].get('cb') and not any(p < i for p in info[uid]['cbe']):
-                out.append(('taskpool_wait-returned-early', 'parsec_taskpool_wait(%d) returned before its completion callback' % uid))
+            if units[uid].get('cb') and not any(p < i for p in info[uid]['cbe']):
+                out.append(('taskpool_wait-returned-early', 'parsec_taskpool_wait(%d) returned (event %d) before its completion callback had run to its end (callback begin at %s)' % (uid, i, info[uid]['cb'][:1])))
         if k == 'active' and i > 0 and ev[i - 1][0] == 'waitret' and ev[i - 1][2] == 0 and a != 0:
             out.append(('counter-not-zero-after-wait', 'active_taskpools = %d right after parsec_context_wait returned' % a))
     for uid, inf in info.items():
@@ -627,7 +658,7 @@ def run_common(ctx, res, prop, oracle, known_keys, want_compound, lines_override
                         maxpar=5 if quick else 6)
     dist = {'histories': 0, 'events': 0, 'epochs': 0, 'threads': {}, 'schedulers': {}, 'taskpools': 0, 'compounds': 0,
             'compound_sizes': {}, 'adds_by_master': 0, 'adds_by_task': 0, 'adds_by_callback': 0, 'taskpool_waits': 0,
-            'refused_calls': 0, 'tasks': 0, 'stalls_hit': 0, 'runtime_traces': 0}
+            'refused_calls': 0, 'tasks': 0, 'stalls_hit': 0, 'tpwait_entered_during_callback': 0, 'runtime_traces': 0}
     rt_ops = []
     seen_v = set()
     for (label, cs, K, sched, keep), (rc, out, err) in zip(jobs, outs):
@@ -638,6 +669,7 @@ def run_common(ctx, res, prop, oracle, known_keys, want_compound, lines_override
                                    'case': TPWAIT_FIRST, 'script': render(TPWAIT_FIRST), 'threads': K, 'sched': sched, 'keep': keep})
             continue
         dist['stalls_hit'] += stats.get('stalls', 0)
+        dist['tpwait_entered_during_callback'] += stats.get('tpwait_entered_during_callback', 0)
         dist['tasks'] += stats.get('tasks', 0)
         dis_all = accept(tcs) if ctx.driver_ok else [[] for _ in tcs]
         if not ctx.driver_ok and 'model driver unavailable' not in ' '.join(res.notes):
